@@ -300,6 +300,10 @@ def run(R):
                     continue
                 if isinstance(e, ast.Call) and (callee_attr(e) or getattr(e.func, 'id', None)) in verifiers:
                     continue
+                # `<restriction> and verify(..)`: truthy only if the verifier's answer is
+                if isinstance(e, ast.BoolOp) and isinstance(e.op, ast.And) and any(
+                        isinstance(v_, ast.Call) and (callee_attr(v_) or getattr(v_.func, 'id', None)) in verifiers for v_ in e.values):
+                    continue
                 bad.append((r, e))
         if bad:
             r, e = bad[0]
